@@ -8,12 +8,13 @@
   The serializer half (end of this file): on containment forests the two-pass hierarchy builder
   nests under every node its complete subtree, whatever the order of the stored edges and of the
   visits (`serializer_builds_forest`, from the invariant `nest_spec` in Proofs/Nest.lean).
-  PARTIAL: the two halves are not composed into one equation `unserCDX (serCDX d) ≃ d`; that the
-  composition holds on generated trees (shuffled and reversed edge lists, second pass) is decided
-  by the correspondence stream `cdx` and its oracle.
+  Both halves are composed in `roundtrip_forest`. PARTIAL: its premise that the preorder
+  enumeration of the forest has no repeated identifier is explicit, not derived; attributes across
+  the codec and the second-pass fixpoint are decided by the correspondence stream `cdx`.
 -/
 import Protobom.Proofs.Cdx
 import Protobom.Proofs.Nest
+import Protobom.Proofs.NestRT
 
 namespace Protobom.C02
 open Protobom Protobom.Cdx Gen
@@ -107,7 +108,9 @@ theorem serializer_builds_forest (d : Document) (md : Metadata) (nl : NodeList) 
       (∀ x, x ∈ placed ↔ (x = root ∨ ∃ p, p ≠ root ∧ ((dictOf nl.nodes).lookup p).isSome = true ∧ x ∈ childrenOf p1 p)) ∧
       b.components = clearAutoL (((dictOf nl.nodes).filter (fun kv => decide (kv.1 ∉ placed))).map
         (fun kv => T (childrenOf p1) (fun x => ((dictOf nl.nodes).lookup x).getD dflt) ht kv.1)) ∧
-      b.deps = p1.deps :=
+      b.deps = p1.deps ∧
+      b.metaComponent = some (if md.name ≠ "" ∧ (nodeToComponent rootNode).name = ""
+        then (nodeToComponent rootNode).withName md.name else nodeToComponent rootNode) :=
   serCDX_forest d md nl root rootNode lcs p1 ht dflt hmd hnl hroots hroot hrid hlc hp1 F hht
 
 /-- the invariant behind it: one call of the hierarchy builder, on any state reached so far -/
@@ -117,5 +120,34 @@ theorem nest_builds_complete_subtrees (children : String → List String) (c0 : 
     (hp : id ∉ path) (hph : ∀ a ∈ path, ht id < ht a) :
     NestPost children c0 ht D P0 path id st (nest children fuel id path st) :=
   nest_spec children c0 ht D P0 F fuel id path st hg hD hf hp hph
+
+/-- **the round trip on containment forests, both halves composed**: for a document with one root
+    element whose containment (edges stored in any order) is a forest below known nodes with
+    non-empty identifiers that do not look generated, writing as CycloneDX 1.`v` and reading the
+    result back succeeds and gives a node list whose identifiers are the root followed by the
+    preorder of the top-level subtrees (the nodes that are neither the root nor contained in a
+    non-root node, each with everything below it), whose only root element is the root, and whose
+    edges are exactly: the root contains every top-level node; every other node contains exactly
+    the nodes the document says it contains. The premise that this enumeration has no repetition
+    is explicit (it holds for forests; deriving it from the forest axioms is not done). -/
+theorem roundtrip_forest (v : Nat) (d : Document) (md : Metadata) (nl : NodeList) (root : String) (rootNode : Node)
+    (lcs : List Lifecycle) (p1 : Pass1) (ht : String → Nat)
+    (hmd : d.metadata = some md) (hnl : d.nodeList = some nl) (hroots : nl.roots = [root])
+    (hroot : nl.getNodeByID root = some rootNode) (hrid : rootNode.id = root)
+    (hlc : serCDX.mapLifecycles md.docTypes = .ok lcs)
+    (hp1 : pass1 (fun id => (dictOf nl.nodes).any (·.1 = id)) nl.edges = .ok p1)
+    (F : Forest (childrenOf p1) ht (fun x => ((dictOf nl.nodes).lookup x).isSome = true) [root])
+    (hht : ∀ x, ht x < (dictOf nl.nodes).length + 2)
+    (hids : ∀ x, ((dictOf nl.nodes).lookup x).isSome = true → x ≠ "" ∧ isAutoRef x = false) :
+    ∃ placed : List String,
+      (∀ x, x ∈ placed ↔ (x = root ∨ ∃ p, p ≠ root ∧ ((dictOf nl.nodes).lookup p).isSome = true ∧ x ∈ childrenOf p1 p)) ∧
+      let tops := ((dictOf nl.nodes).filter (fun kv => decide (kv.1 ∉ placed))).map (·.1)
+      let preT := fun t => pre (childrenOf p1) (ht t + 1) t
+      (root :: tops.flatMap preT).Nodup →
+      ∃ d' nl', rtCDX v d = .ok d' ∧ d'.nodeList = some nl' ∧
+        nl'.ids = root :: tops.flatMap preT ∧ nl'.roots = [root] ∧
+        ∀ s t x, nl'.HasEdge s t x ↔ t = 5 ∧
+          ((s = root ∧ x ∈ tops) ∨ ((∃ t' ∈ tops, s ∈ preT t') ∧ x ∈ childrenOf p1 s)) :=
+  rtCDX_forest v d md nl root rootNode lcs p1 ht hmd hnl hroots hroot hrid hlc hp1 F hht hids
 
 end Protobom.C02
